@@ -47,7 +47,13 @@ def run(chk, tier):
     chk.floor("R-ERRCLEAN", "failing returns past a cleanup jump", nec, 1)
     import uninit
     uninit.wire(chk, P, ["topology-synthetic.c"], 2)
-    chk.decided += ['a failing return of the parser past its first jump to the cleanup label releases what was built',
+    chk.rule("R-DANGLE", "a local pointer stored into a field the program releases through (`X->f = p`) and then released by the same function never leaves the field unchanged at an exit: "
+             "explored paths store -> release of the same local -> no later store to the field -> exit are reported (the owner would release the block again)")
+    import consumed as _consumed
+    ndg = _consumed.dangling(chk, P, ["topology-synthetic.c"])
+    chk.floor("R-DANGLE", "stores of a local into an owning field", ndg, 1)
+    chk.decided += ['a failed step never leaves an owning field pointing at a block the function has already released (no dangling pointer for the destructor to release again)',
+                    'a failing return of the parser past its first jump to the cleanup label releases what was built',
                     'a union left unfilled by a failed type parser is not read',
                     'inside the export cursor helper the advance is clamped and non-negative on every path',
                     "the level walk of the index parser never reads levels that were not written (sentinel planted before every call)",
